@@ -40,7 +40,7 @@ def ct_setup(ctx):
 
     def adapt(c, a, k):
         n_calls.append(1)
-        c.event("adapt", a[0], dict(k), tuple(c.ghost.get("dirs", [])))
+        c.event("adapt", a[0], dict(k), tuple(c.ghost.get("dirs", [])), isinstance(a[0], dict) and "__path__" in a[0])
         which = first if len(n_calls) == 1 else second
         if which == "accepts":
             return adapted1 if len(n_calls) == 1 else adapted2
@@ -97,6 +97,7 @@ def common_obligations(ctx, d):
     if len(adapts) > 1:
         ctx.oblige("post", "a-retry(with default=)-happens-only-for-a-value-that-was-text,and-on-the-original-text" + tag, len(adapts) == 2 and was_text and adapts[1][1] is d["orig"] and "default" in adapts[1][2])
     ctx.oblige("post", "the-original-value-is-always-passed-as-orig_val" + tag, all(e[2].get("orig_val") is d["orig"] for e in adapts))
+    ctx.oblige("post", "the-loader's-bookkeeping-key(__path__ of a mapping read from a file)-is-taken-out-before-the-value-meets-its-type(it is not an item of the mapping)" + tag, not any(e[4] for e in adapts))
     return adapts, tag
 
 
